@@ -72,7 +72,7 @@ theorem applyDiff_summary (f t : List Key) (old : List Item) (hf : f.Nodup) (ht 
         rw [hd]; simp [applyDiff]
       rw [this, clearPhase_eq w old hw]
       constructor <;> simp [hlog, somes, hold, hf]
-  · obtain ⟨rem, U, ads, c, hn, _, _, heq⟩ := applyDiff_spec f t old hf ht hold hte bs marker w hw
+  · obtain ⟨rem, U, ads, c, hn, _, heq⟩ := applyDiff_spec f t old hf ht hold hte bs marker w hw
     rw [heq, c.pipeline_closed hn bs marker w hw]
     obtain ⟨h1, h2, h3⟩ := c.final_storage bs w.next
     refine ⟨h1, h2, ?_, ?_, ?_, ?_, ?_, ?_, ?_, ?_⟩
